@@ -10,7 +10,7 @@ TITLE = "Index and point selection return the stored values, complete and in ord
 MC = {"quick": [("MC_Cells", "MC_C05.cfg", 8)], "thorough": [("MC_Cells", "MC_C05.cfg", 16)]}
 TRACE = ("Trace_Cells", "Trace_Cells.cfg")
 REQUIRED = ["SelectIndex", "SelectIndexes", "SelectPoints", "ExtractDF", "repeats", "policy-error", "policy-drop",
-            "policy-fill", "points-error-raised", "default-dim", "default-dim-collision", "holes",
+            "policy-fill", "points-error-raised", "default-dim", "default-dim-collision", "holes", "Mutate", "after-mutation",
             "cf1d", "cf2d", "shoc_simple", "shoc_standard", "arakawa", "ugrid",
             "kind-face", "kind-left", "kind-back", "kind-node", "kind-edge"]
 RULE = ("one case = one dataset with tagged variables on every grid kind (float with NaN, int32, float32; grid "
@@ -29,7 +29,7 @@ def cases(tier: str, seed: int) -> list[dict]:
     rng = random.Random(seed + 5)
     out = []
     for w in GW.geo_worlds(tier, seed, big=False):
-        CD.add_data_vars(w, rng)
+        CD.add_data_vars(w, rng, late=True)
         ev = []
         taken = {e["name"] for e in w["extras"]}
 
@@ -61,6 +61,13 @@ def cases(tier: str, seed: int) -> list[dict]:
                 ev.append(e)
             for policy in ("error", "drop", "fill"):
                 ev.append({"a": "ExtractDF", "ps": ps, "policy": policy, "dim": pick(["point", "obs"])})
+        # the dataset is then modified in place and everything is asked again (same dataset object, same accessor)
+        k = len(ev)
+        again = [dict(e) for e in ev if rng.random() < 0.5][: (6 if tier == "quick" else 20)]
+        ev.append({"a": "Mutate", "off": 3, "total": 3})
+        ev += again
+        ev.append({"a": "Mutate", "off": 2, "total": 5})
+        ev += [dict(e) for e in again[:3]]
         out.append({"src": "gen", "world": w, "events": ev})
     return out
 
